@@ -207,7 +207,18 @@ impl<Rounds: Unsigned + Default> NewCipher for ChaChaAny<U24, Rounds, X> {
 impl<NonceSize: Unsigned, Rounds, IsX> StreamCipherSeek for ChaChaAny<NonceSize, Rounds, IsX> {
     #[inline]
     fn try_current_pos<T: SeekNum>(&self) -> Result<T, OverflowError> {
-        unimplemented!()
+        // `len` counts down the blocks left from the size of the stream, so this is the number
+        // of blocks generated so far (including the one in the buffer, if any).
+        let total = if NonceSize::U32 != 12 { BIG_LEN } else { SMALL_LEN };
+        let blocks = total.wrapping_sub(self.state.len);
+        let have = self.state.have;
+        if have > 0 {
+            // partway through the buffered block
+            T::from_block_byte(blocks.wrapping_sub(1), (BLOCK as i8 - have) as u8, BLOCK as u8)
+        } else {
+            // at a block boundary, or partway into a block that is yet to be generated
+            T::from_block_byte(blocks, (-have) as u8, BLOCK as u8)
+        }
     }
     #[inline(always)]
     fn try_seek<T: SeekNum>(&mut self, pos: T) -> Result<(), LoopError> {
